@@ -45,6 +45,24 @@ MANIFEST = dict(
 )
 
 
+TAGS = "verif,c07"   # the C07 hook files carry `//go:build verif && c07`: other checks that overlay the same package never compile them
+
+
+def _own_overlay(path):
+    """Keep only the kit and C07's own hook files: hook files of other checks living in the same package
+    directories may need overlays (accessors in other packages) that this check does not set up."""
+    ov = json.load(open(path))
+    hooks_root = os.path.join(checklib.VERIF, "hooks") + os.sep
+    keep = {}
+    for dst, src in ov["Replace"].items():
+        if src.startswith(hooks_root) and not os.path.basename(src).startswith("c07_"):
+            continue
+        keep[dst] = src
+    with open(path, "w") as fh:
+        json.dump({"Replace": keep}, fh, indent=1)
+    return path
+
+
 def _seams(tier):
     only = os.environ.get("VERIF_C07_SEAMS")
     out = [s for s in SEAMS if tier in s[3]]
@@ -66,11 +84,11 @@ def run(tier, replay):
         if not seams:
             checklib.tool_error("replay file names unknown seam %r" % seam_of_replay)
     hooks = [GEN] + [s[1] for s in seams]
-    ov = checklib.gen_overlay(CID, hooks)
+    ov = _own_overlay(checklib.gen_overlay(CID, hooks))
     bd = checklib.build_dir(CID)
 
     def build(s):
-        return s[0], checklib.go_test_build(CID, s[1], ov, out=os.path.join(bd, "t-%s.bin" % s[0]))
+        return s[0], checklib.go_test_build(CID, s[1], ov, out=os.path.join(bd, "t-%s.bin" % s[0]), tags=TAGS)
 
     bins = {}
     with concurrent.futures.ThreadPoolExecutor(max_workers=3) as ex:
